@@ -5,7 +5,7 @@
 (* getters (values at T_ref, samples) and its per-segment evaluators       *)
 (* (one-sided values at every interior break).                             *)
 (***************************************************************************)
-EXTENDS Dec, TLC, TLCExt, Json, IOUtils
+EXTENDS Dec, TLC, TLCExt, Json, IOUtils, FiniteSets
 
 TraceLog == ndJsonDeserialize(IOEnv.TRACE_FILE)
 VARIABLES l
@@ -16,18 +16,27 @@ Idx(s) == 1..Len(s)
 
 \* Tracking thresholds for smooth statistical-mechanical sources (dimensionless Cp/R, H/RT, S/R).
 \* The error of a polynomial form over one segment is governed by the segment's span ratio
-\* r = T_hi / T_lo.  Measured on ~4 500 fits of ideal-gas and adsorbate sources (all three
-\* families, repaired tree): r < 2: 7e-4 / 5e-5 / 5e-5;  r < 3: 1.7e-2 / 9.5e-4 / 9.5e-4;
-\* r < 4: 3e-2 / 6.3e-3 / 3e-3;  r < 6: 0.25 / 2.6e-2 / 2.4e-2.  The thresholds are 5x these
-\* (rounded up); fits with a segment of span ratio >= 6 are not asserted (the form is not expected
-\* to track there).  Band(e) is computed here from the fitted object's own bounds and breaks.
+\* r = T_hi / T_lo.  Measured (worst |fit - source| over the judged samples) on ~13 000 fits of ideal-gas
+\* and adsorbate sources over the C01 parameter range (all three families, every window class, n_T 15..200,
+\* tree with the proposed C03 fixes; round 5):
+\*   r < 2: 1.9e-3 / 1.2e-4 / 8.7e-5;  r < 3: 1.2e-2 / 1.8e-3 / 1.2e-3;  r < 4: 4.6e-2 / 5.4e-3 / 3.9e-3;
+\*   r < 6: 0.22 / 2.7e-2 / 2.0e-2;  r < 31 (NASA-7, Shomate): 0.79 / 0.80 / 0.55.
+\* The thresholds are 5x these (rounded up), or the round-1 value where that was larger.  Band(e) is computed
+\* here from the fitted object's own bounds and breaks.
 Edges(e) == <<e.Tlo>> \o e.brk \o <<e.Thi>>
 AllUnder(e, c) == \A i \in 1..(Len(Edges(e)) - 1) : Lt(Edges(e)[i + 1], Mul(I(c), Edges(e)[i]))
+\* Round 5 (the whole range 100-3000 K is a window of the quantifier): NASA-7 and Shomate fits whose widest
+\* segment has 6 <= r < 31 form band 31 (thresholds measured the same way); NASA-9
+\* is still not asserted there (it fits Cp*T^2 unweighted: Cp/R off by > 20 at the cold end of a 100-3000 K interval).
 Band(e) == IF AllUnder(e, 2) THEN 2 ELSE IF AllUnder(e, 3) THEN 3 ELSE IF AllUnder(e, 4) THEN 4
-           ELSE IF AllUnder(e, 6) THEN 6 ELSE 0
-TrackCp(b) == CASE b = 2 -> <<5, -3>> [] b = 3 -> <<1, -1>> [] b = 4 -> <<15, -2>> [] b = 6 -> <<125, -2>>
-TrackH(b) == CASE b = 2 -> <<5, -4>> [] b = 3 -> <<5, -3>> [] b = 4 -> <<3, -2>> [] b = 6 -> <<13, -2>>
-TrackS(b) == CASE b = 2 -> <<5, -4>> [] b = 3 -> <<5, -3>> [] b = 4 -> <<15, -3>> [] b = 6 -> <<12, -2>>
+           ELSE IF AllUnder(e, 6) THEN 6
+           ELSE IF e.fam \in {"nasa7", "shomate"} /\ AllUnder(e, 31) THEN 31 ELSE 0
+TrackCp(b) == CASE b = 2 -> <<1, -2>> [] b = 3 -> <<1, -1>> [] b = 4 -> <<25, -2>> [] b = 6 -> <<125, -2>> [] b = 31 -> <<4, 0>>
+TrackH(b) == CASE b = 2 -> <<6, -4>> [] b = 3 -> <<1, -2>> [] b = 4 -> <<3, -2>> [] b = 6 -> <<14, -2>> [] b = 31 -> <<4, 0>>
+TrackS(b) == CASE b = 2 -> <<5, -4>> [] b = 3 -> <<6, -3>> [] b = 4 -> <<2, -2>> [] b = 6 -> <<12, -2>> [] b = 31 -> <<3, 0>>
+\* distinct data temperatures a segment needs for its Cp polynomial to be determined by the data: a quartic (NASA-7),
+\* A..E (Shomate), seven coefficients fitted without the lowest data temperature (NASA-9)
+Need(fam) == CASE fam = "nasa7" -> 5 [] fam = "shomate" -> 5 [] fam = "nasa9" -> 8
 
 Col(samples, j) == [i \in Idx(samples) |-> samples[i][j]]
 SetOf(s) == {s[i] : i \in Idx(s)}
@@ -39,9 +48,11 @@ FitClauses(e) ==
    LET cpF == Col(e.samples, 2)  hF == Col(e.samples, 3)  sF == Col(e.samples, 4)
        cpS == Col(e.samples, 5)  hS == Col(e.samples, 6)  sS == Col(e.samples, 7)
        exact == e.src \in {"poly", "const", "zero"}
-       \* a sample is judged for recovery / tracking only if the fitted object's segment that holds it
-       \* carries at least 10 data points (samples[i][8] = 1; under-determined segments are outside the quantifier)
-       dense(i) == e.samples[i][8] = 1
+       \* a sample is judged for recovery / tracking only if the fitted object's segments from the one that holds it
+       \* to the one that holds T_ref each carry enough distinct data temperatures (samples[i][8] = the smallest count;
+       \* under-determined segments are outside the quantifier)
+       dense(i) == e.samples[i][8] >= Need(e.fam)
+       nd == Cardinality({i \in Idx(e.samples) : dense(i)})
        tracks == e.src = "statmech" /\ Band(e) # 0
        bd == Band(e)
    IN Chk(CloseIn(e.hfit, e.href, {Tiny}, 6), "AnchorH")
@@ -61,6 +72,9 @@ FitClauses(e) ==
                  \cup Chk(\A i \in Idx(hF) : dense(i) => AbsLe(hF[i], hS[i], TrackH(bd)), "TracksH")
                  \cup Chk(\A i \in Idx(sF) : dense(i) => AbsLe(sF[i], sS[i], TrackS(bd)), "TracksS")
             ELSE {})
+      \* vacuity accounting (names starting with ~ are counters for the driver, not verdicts)
+      \cup (IF exact /\ nd > 0 THEN {"~exact:" \o ToString(nd)} ELSE {})
+      \cup (IF tracks /\ nd > 0 THEN {"~tracks" \o ToString(bd) \o ":" \o ToString(nd)} ELSE {})
 
 Clauses(e) == IF e.ev = "fit" THEN FitClauses(e) ELSE {"UnknownEvent"}
 
